@@ -591,10 +591,11 @@ def sub_markers(item, contract, out, assume=False, twin=None):
         if len(lps) != 1:
             raise Undecided("tool-error", f"{path}: ${nm} in a @proof block is ambiguous ({len(lps)} loops); write ${nm}#<loop id>")
         return f"{nm}__{lps[0]['id']}"
-    if contract is not None and not assume and out.body_broadcast:
+    bb = list(out.body_broadcast) + list(getattr(out, "body_broadcast_fn", {}).get(path, []))
+    if contract is not None and not assume and bb:
         # axioms broadcast inside the bodies of the verified functions only (not in the spec / lemma files, whose proofs are
         # written against explicit instances): commutativity, so that `a * b` rewritten as `b * a` in /repo still verifies
-        start_lines.append(("    broadcast use {" + ", ".join(out.body_broadcast) + "};", None))
+        start_lines.append(("    broadcast use {" + ", ".join(bb) + "};", None))
     if contract is not None and not assume:
         for where, anchor, lines in contract.proofs:
             lines = [(re.sub(r"\$([A-Za-z_]+)(?:#(\d+))?", _loopvar, t), lab) for (t, lab) in lines]
@@ -625,6 +626,28 @@ def sub_markers(item, contract, out, assume=False, twin=None):
                     if mif:
                         flip = {"==": "==", "!=": "!=", "<": ">", ">": "<", "<=": ">=", ">=": "<="}[mif.group(2)]
                         hit = _anchor_across_lines(src_lines, f"if {mif.group(3)} {flip} {mif.group(1)} {{", exact=False)
+                if hit is None and where == "before":
+                    # `if c {A} else {B}` rewritten as `if !c {B} else {A}`: a hint placed *before* the test is indifferent to
+                    # which branch comes first, so the negated test is the same anchor (never used for `after` hints)
+                    mneg = re.match(r"^=?\s*if\s+(.+?)\s*\{\s*$", anchor)
+                    if mneg:
+                        c = mneg.group(1)
+                        cands = [f"if !{c} {{", f"if !({c}) {{"]
+                        if c.startswith("!"):
+                            cands.append(f"if {c[1:].strip('()')} {{")
+                        mcmp = re.match(r"^(.+?)\s*(==|!=|<=|>=|<|>)\s*(.+)$", c)
+                        if mcmp:
+                            a, op, b = mcmp.groups()
+                            neg = {"==": "!=", "!=": "==", "<": ">=", ">=": "<", ">": "<=", "<=": ">"}[op]
+                            negflip = {"==": "!=", "!=": "==", "<": "<=", ">=": ">", ">": ">=", "<=": "<"}[op]
+                            cands += [f"if {a} {neg} {b} {{", f"if {b} {negflip} {a} {{"]
+                        if c.endswith(".into()"):
+                            c0 = c[:-len(".into()")]
+                            cands += [f"if !bool::from({c0}) {{", f"if bool::from({c0}) {{", f"if !<bool>::from({c0}) {{"]
+                        for cand in cands:
+                            hit = _anchor_across_lines(src_lines, cand, exact=False)
+                            if hit is not None:
+                                break
                 if hit is not None:
                     first, last = hit
                     hits = [first if where == "before" else last]
@@ -704,13 +727,13 @@ def sub_markers(item, contract, out, assume=False, twin=None):
                     out.add_labelled(loop_spec[lid], kind="contract", fn=path, file=rel, line=repo_line)
                 if twin is not None:
                     pending_twin = f"VACUITY.{path}#loop{lid}"
-                if out.body_broadcast and contract is not None and not assume:
+                if bb and contract is not None and not assume:
                     pending_bb = True
             else:
                 if pending_bb and pending_twin is None and p.lstrip().startswith("{"):
                     # loop bodies are verified in isolation: the body-level broadcast is repeated inside each loop body
                     i0 = p.index("{")
-                    out.add(p[: i0 + 1] + " broadcast use {" + ", ".join(out.body_broadcast) + "};", **base_meta, line=repo_line)
+                    out.add(p[: i0 + 1] + " broadcast use {" + ", ".join(bb) + "};", **base_meta, line=repo_line)
                     pending_bb = False
                     p = p[i0 + 1 :]
                 if pending_start and pending_twin is None and p.lstrip().startswith("{"):
@@ -846,6 +869,7 @@ def assemble(unit, items=None, twin=False):
     out = Out()
     out.honest = bool(unit.get("honest", False))
     out.body_broadcast = list(unit.get("body_broadcast", []))
+    out.body_broadcast_fn = dict(unit.get("_wide", {}))
     out.add("#![feature(allocator_api)]", kind="prelude")
     out.add("#![allow(non_snake_case, non_upper_case_globals, non_camel_case_types, unused, dead_code)]", kind="prelude")
     out.add("use vstd::prelude::*;", kind="prelude")
@@ -962,6 +986,12 @@ def assemble(unit, items=None, twin=False):
             else:
                 if p in unit.get("exec_no_decreases", []):
                     out.add("#[verifier::exec_allows_no_decreases_clause]", kind="glue", fn=p)
+                complex_inv = c is not None and any(re.match(r"\s*(invariant_except_break|ensures)\b", t) for (_fp, _k, ls) in c.loops for (t, _l) in ls)
+                if it.get("loops") and not complex_inv and p in unit.get("_wide", {}):
+                    # second stage only (see checker.run_units), and only in the functions that failed in the first: facts
+                    # established before a loop stay visible inside it, so that a pure value bound once before the loop
+                    # (hoisting, compute-once) verifies like the expression it replaces
+                    out.add("#[verifier::loop_isolation(false)]", kind="glue", fn=p)
                 sub_markers(it, c, out, twin=twin_list)
                 nverify += 1
         if hdr:
